@@ -111,9 +111,14 @@ def profile(**over) -> Dict[str, Any]:
 def st_world(draw, prof: Optional[Dict[str, Any]] = None) -> Dict[str, Any]:
     p = prof or DEFAULT_PROFILE
     net = draw(st.sampled_from(p["nets"]))
-    graph = draw(graphs.st_graph(4, 10)) if net == "gen" else None
+    block = net == "gen" and draw(st.sampled_from(p.get("block_graphs", [False, False, True])))
+    graph = draw(graphs.st_graph(4, 10, block_times=block)) if net == "gen" else None
     nsites = draw(st.integers(3, 7))
     sites = draw(st.lists(st.integers(0, len(SITE_POOL) - 1), min_size=nsites, max_size=nsites))
+    # sites at junctions of the generated street graph (always on block graphs) instead of the fixed pool
+    coords = None
+    if net == "gen" and (block or draw(st.booleans())):
+        coords = [graph["nodes"][s_ % len(graph["nodes"])][1:] for s_ in sites]
     site = st.integers(0, nsites - 1)
     dt = draw(st.sampled_from(p["steps"]))
     timeout = draw(st.sampled_from(p["timeouts"]))
@@ -216,7 +221,7 @@ def st_world(draw, prof: Optional[Dict[str, Any]] = None) -> Dict[str, Any]:
             kres = search_res - draw(st.sampled_from([0, 0, 1]))
             cells = {}
             for s in stations:
-                cell = h3.h3_to_parent(h3.geo_to_h3(*SITE_POOL[sites[s["site"]]], 15), kres)
+                cell = h3.h3_to_parent(h3.geo_to_h3(*(coords[s["site"]] if coords else SITE_POOL[sites[s["site"]]]), 15), kres)
                 cells.setdefault(cell, set()).update(c for c, _, _ in s["plugs"])
             for when in whens:
                 for cell in sorted(cells):
@@ -229,7 +234,7 @@ def st_world(draw, prof: Optional[Dict[str, Any]] = None) -> Dict[str, Any]:
         "charging_range_km_soft_threshold": draw(st.sampled_from([50, 50, 400])),
         # shortest_time_to_charge simulates whole charge sessions step by step for every candidate: only
         # affordable with steps >= 60 s
-        "charging_search_type": draw(st.sampled_from(["nearest_shortest_queue"] * 3 + (["shortest_time_to_charge"] if dt >= 60 else []))),
+        "charging_search_type": draw(st.sampled_from(["nearest_shortest_queue"] * 3 + (["shortest_time_to_charge"] if dt >= 60 and p.get("shortest_time", True) else []))),
         "idle_time_out_seconds": draw(st.sampled_from([1800, 120, 600])),
         # 0.8 (default): drivers end fast charging by an Idle instruction; 1.0: sessions run until the battery is full and end by
         # the default transition *during* the vehicle-update pass (a different code path for freed plugs)
@@ -242,6 +247,7 @@ def st_world(draw, prof: Optional[Dict[str, Any]] = None) -> Dict[str, Any]:
         "net": net,
         "graph": graph,
         "sites": sites,
+        **({"site_coords": coords} if coords else {}),
         "sim": {"start_time": start, "timestep_duration_seconds": dt, "request_cancel_time_seconds": timeout,
                 "sim_h3_search_resolution": search_res},
         "dispatcher": disp,
